@@ -9,6 +9,9 @@ the forced variant must hit the target kinetic temperature to rounding; (d) in l
 HamiltonianCanonical simulations a recorder around the move's `distribution` callable
 and a contract on the criteria's `evaluate` check that the kinetic energy the criteria
 is given is that of the freshly drawn momenta.
+Integrator objects are also used 'second hand' (used for a proposal that is then undone
+from outside, as after a rejected trial); the forced refresh is also run under
+FixAtoms / FixCom / FixedPlane.
 """
 from __future__ import annotations
 
